@@ -161,7 +161,18 @@ ADDED.update({
     "w12_C16": "C-terminal oxygens under the names OT1 / OT2 on the whole dimer",
     "w12_C17": "complements checked in every conformation; insertion-coded residues + an alt-loc elsewhere",
 })
-ROUND = {"C": 1, "w2": 2, "w3": 3, "w4": 4, "w5": 5, "w6": 6, "w7": 7, "w8": 8, "w9": 9, "w10": 10, "w11": 11, "w12": 12}
+ADDED.update({
+    "w13_C03": "a file with CR-LF line ends and a TER record without trailing blanks, by path and by stream",
+    "w13_C04": "a bifurcated hydrogen bond: two carboxylate oxygens whose squared distances to a supplied hydrogen differ by < 0.0008 A^2",
+    "w13_C05": "a part written without chain identifier next to a part in chain A with the same residue numbers",
+    "w13_C08": "a chain that only the second model has; layout of the average's file (F_TablesAgree) on multi-conformation runs",
+    "w13_C11": "atoms of different chains and residues in the equal-serial replay (labels do not enter the distance rule)",
+    "w13_C14": "lists that name two chains (a number listed for one chain, existing or not, is not listed for the other)",
+    "w13_C16": "the whole remaining chain for chains truncated to start at an aspartate (a buried amino terminus)",
+    "w13_C17": "hydrides of elements without a tabulated X-H length (Se, P, B): bonded by the program's own criterion",
+    "w13_C19": "a malformed serial field inside a structure file: the run is rejected with ValueError",
+})
+ROUND = {"C": 1, "w2": 2, "w3": 3, "w4": 4, "w5": 5, "w6": 6, "w7": 7, "w8": 8, "w9": 9, "w10": 10, "w11": 11, "w12": 12, "w13": 13}
 
 
 def write_design():
